@@ -19,7 +19,10 @@ ToGraph(p) == [k |-> p.k, nodes |-> BSeqSet(p.nodes), edges |-> BSeqSet(p.edges)
 ToHrg(p) == [k |-> p.k, start |-> p.start,
              rules |-> [i \in DOMAIN p.rules |-> [lhs |-> p.rules[i].lhs, rhs |-> ToGraph(p.rules[i].rhs)]],
              nls |-> BSeqSet(p.nls), els |-> BSeqSet(p.els), doms |-> BSeqSet(p.doms), facs |-> BSeqSet(p.facs)]
-ToObj(p) == IF p.k = "none" THEN NoObj ELSE IF p.k \in {"graph"} THEN ToGraph(p) ELSE ToHrg(p)
+ToFGraph(p) == [k |-> p.k, nodes |-> BSeqSet(p.nodes), edges |-> BSeqSet(p.edges), ext |-> p.ext,
+                nls |-> BSeqSet(p.nls), els |-> BSeqSet(p.els), doms |-> BSeqSet(p.doms), facs |-> BSeqSet(p.facs)]
+ToObj(p) == IF p.k = "none" THEN NoObj ELSE IF p.k = "graph" THEN ToGraph(p)
+            ELSE IF p.k = "fgraph" THEN ToFGraph(p) ELSE ToHrg(p)
 Heap(j) == [h \in DOMAIN j |-> ToObj(j[h])]
 States == [i \in DOMAIN StatesJ |-> Heap(StatesJ[i])]
 
